@@ -37,6 +37,8 @@ type apiCase struct {
 	// instead of GetWarrior(i) (a handle must stay valid for the life of the simulator)
 	handles    []gmars.Warrior
 	useHandles bool
+	names      [][2]string // name and author passed to AddWarrior, per warrior
+	maxCycles  int
 }
 
 func cellStr(i gmars.Instruction) string {
@@ -122,6 +124,7 @@ func newAPICase(out *bufio.Writer, id, tag string, cfg gmars.SimulatorConfig, re
 	default:
 		fmt.Fprintf(out, "ok\n")
 		c.m = uint64(cfg.CoreSize)
+		c.maxCycles = int(cfg.Cycles)
 		c.log = &logReporter{}
 		c.sim.AddReporter(c.log)
 		c.rec = gmars.NewStateRecorder(c.sim)
@@ -240,6 +243,7 @@ func (c *apiCase) add(data *gmars.WarriorData) {
 		resp = "err"
 	} else {
 		c.handles = append(c.handles, h)
+		c.names = append(c.names, [2]string{data.Name, data.Author})
 	}
 	req := fmt.Sprintf("A %d %s", data.Start, cellsStr(data.Code))
 	if len(data.Code) == 0 {
@@ -337,6 +341,20 @@ func (c *apiCase) getWarrior(i int) {
 			x = fmt.Sprint(uint64(pc))
 		}
 		resp = fmt.Sprintf("a=%d q=%s x=%s len=%d", a, strings.Join(qs, ","), x, w.Length())
+		// the handle returned by AddWarrior answers the same questions the same way
+		if i >= 0 && i < len(c.handles) && c.handles[i] != nil {
+			h := c.handles[i]
+			if h.Alive() != w.Alive() || h.Length() != w.Length() ||
+				h.Name() != w.Name() || h.Author() != w.Author() || len(h.Queue()) != len(w.Queue()) {
+				resp += " handle-differs"
+			}
+		}
+		if i >= 0 && i < len(c.names) && (w.Name() != c.names[i][0] || w.Author() != c.names[i][1]) {
+			resp += " name-differs"
+		}
+		if c.sim.MaxCycles() != c.maxCycles {
+			resp += " maxcycles-differs"
+		}
 	})
 	c.finish(fmt.Sprintf("W %d", i), f, resp, false)
 }
